@@ -55,13 +55,20 @@ Definition c16_sensor_run (n m : nat) (H LR : lmx S) (st : @sim_state O n) (zs :
 
 (* (input_description_, measurement_description_) of a SimulatedLinearSensor over a state model
    with [lin] linear components, R having [nr] rows *)
-Definition c16_sensor_descs (m n : nat) (H : lmx S) (lin nr : nat) : vdesc * vdesc :=
-  @sensor_descriptions O m n H (mkDesc lin 0 0) nr.
+Definition c16_sensor_descs (m n : nat) (H : lmx S) (lin circ nr : nat) : vdesc * vdesc :=
+  @sensor_descriptions O m n H (mkDesc lin circ 0) nr.
 
-Definition c16_grid (xinf xsup yinf ysup : T S) (nx ny np : nat) (st w : lmx S) : option (lmx S * lmx S) :=
-  @grid_initialize O xinf xsup yinf ysup nx ny np st w.
+(* SimulatedStateModel over a user-defined additive linear model (an LTIStateModel with transition
+   matrix F whose getNoiseSample serves given columns: the draws [zs], factor = identity) *)
+Definition c16_lti_sim_ctor (n : nat) (F : lmx S) (x0 : lmx S) (len : nat) (zs : list (T S))
+  : sim_err + @sim_state O n :=
+  @sim_ctor O n (fun x z => @additive_motion O n 1 F (@mid O n) x z) x0 len zs.
+
+(* on a particle set with [r] state rows (4: the grid_initialize of the theorems, C16_grid_rows) *)
+Definition c16_grid (xinf xsup yinf ysup : T S) (nx ny r np : nat) (st w : lmx S) : option (lmx S * lmx S) :=
+  @grid_initialize_rows O xinf xsup yinf ysup nx ny r np st w.
 End E.
 
 Extraction "C16_model.ml" c16_wna_F c16_wna_Q c16_wna_sqrtQ c16_wna_noise c16_wna_motion c16_wna_tp c16_spec_tp
   c16_LLt c16_lti_state c16_lti_meas c16_linear_model c16_noise c16_sim_ctor c16_sim_target c16_sim_run
-  c16_sensor_run c16_sensor_descs desc_total c16_grid.
+  c16_sensor_run c16_sensor_descs c16_lti_sim_ctor desc_total c16_grid.
